@@ -134,6 +134,11 @@ def correspondence(ctx: core.Ctx) -> None:
     pairs = gen_pairs(ctx, n)
     for k in range(0, len(pairs), 2000):
         vc_engine.run_pairs(ctx, pairs[k:k + 2000], "gen", WHICH)
+    edges = V.wildcard_edge_unions()
+    vc_engine.run_pairs(ctx, [(e, "*") for e in edges] + [(e, ctx.rng.choice(edges)) for e in edges], "wildcard-edges", WHICH)
+    fam = V.gen_family_pairs(ctx.rng, ctx.budget(800, 20000))
+    for k in range(0, len(fam), 2000):
+        vc_engine.run_pairs(ctx, fam[k:k + 2000], "release-family", WHICH)
     if ctx.thorough:
         clauses = sorted({V.gen_clause(ctx.rng) for _ in range(3000)})[:150]
         allp = [(a, b) for a in clauses for b in clauses]
